@@ -220,3 +220,85 @@ Fixpoint decl_from (items : list (witem * Z)) : bool :=
   end.
 
 Definition c01_decl (t : trace) : bool := decl_from (with_lb 0 (rev t)).
+
+(* ---------------------------------------------------------------- well-formed traces
+   The call discipline of a thread: a call event only when idle, internal steps only inside a
+   call, a return only of the call in progress (with a result of the right kind: Wait returns
+   a channel), stutter only when idle.  Traces of the machines are well formed
+   (WGWf.wg_trace_wf); recorded traces are checked by this function in the judge.  For well
+   formed traces the streaming monitor c01_ok is EXACTLY the sentence c01_spec
+   (WGSpecProofs.c01_ok_iff_spec).                                                           *)
+Fixpoint in_call (t : trace) (tid : nat) : option call :=
+  match t with
+  | [] => None
+  | it :: older =>
+      if Nat.eqb (it_tid it) tid then
+        match it_ev it with
+        | ECall c => Some c
+        | ERet _ _ => None
+        | _ => in_call older tid
+        end
+      else in_call older tid
+  end.
+
+Definition call_same (a b : call) : bool :=
+  match a, b with
+  | CAdd x, CAdd y => Z.eqb x y
+  | CWait, CWait => true
+  | CCount, CCount => true
+  | _, _ => false
+  end.
+
+Definition ret_matches (c : call) (r : ret) : bool :=
+  match c, r with
+  | CWait, RChan _ => true
+  | CAdd _, RInt _ => true
+  | CAdd _, RPanic => true
+  | CCount, RInt _ => true
+  | _, _ => false
+  end.
+
+Fixpoint trace_wf (t : trace) : bool :=
+  match t with
+  | [] => true
+  | it :: older =>
+      trace_wf older &&
+      match it_ev it, in_call older (it_tid it) with
+      | ECall _, None => true
+      | ETau, Some _ => true
+      | ERet c r, Some c' => call_same c c' && ret_matches c r
+      | EStutter, None => true
+      | _, _ => false
+      end
+  end.
+
+(* ---------------------------------------------------------------- C02, declaratively
+   for every position u (p = the trace up to and including u, it = the item at u):
+   no call has panicked; if no Add is in flight after u then the observed Count() is the sum of
+   the deltas, with sum 0 every channel handed out so far is observed closed, and a Wait
+   returning at u with sum > 0 returns a channel observed open; and no thread inside Wait has
+   just been scheduled K_WAIT times in a row, each time with no Add in flight, without
+   returning.                                                                                *)
+Definition at_rest (p : trace) : Prop := adds_in_flight p = [].
+
+Fixpoint solo_rest (p : trace) (tid k : nat) : Prop :=
+  match k with
+  | O => True
+  | S k' =>
+      match p with
+      | it :: older =>
+          it_tid it = tid /\ it_ev it = ETau /\ at_rest older /\ solo_rest older tid k'
+      | [] => False
+      end
+  end.
+
+Definition c02_spec (t : trace) : Prop :=
+  forall u it, item_at t u = Some it ->
+    let p := prefix_upto t u in
+    (forall c, it_ev it <> ERet c RPanic) /\
+    (at_rest p ->
+       fst (it_obs it) = sum_deltas p /\
+       (sum_deltas p = 0 -> forall x, In x (handed_out p) -> In x (snd (it_obs it))) /\
+       (forall x, it_ev it = ERet CWait (RChan x) -> 0 < sum_deltas p ->
+                  ~ In x (snd (it_obs it)))) /\
+    (forall tid, in_call p tid = Some CWait -> ~ solo_rest p tid K_WAIT).
